@@ -45,13 +45,19 @@ TileOK(starts, fracs, pd, ast) ==
    /\ \A j \in 1..Len(starts) : fracs[j] = 0 /\ starts[j] >= 0
    /\ \/ \A j \in 1..Len(starts) : starts[j] % pd = 0
       \/ \A j \in 1..Len(starts) : ((starts[j] % pd) + (ast % pd)) % pd = 0
-   /\ \A j \in 1..(Len(starts) - 1) : starts[j + 1] = starts[j] + pd
+   /\ \A j \in 1..(Len(starts) - 1) : starts[j + 1] - starts[j] = pd           \* (difference: no 32-bit overflow)
 \* C06.cover: periods that all lie in the future of the request instant tile nothing of the presentation (and make the
 \* partition clause vacuous): the first generated period has started.  nowB = now - ast - B in any unit (only the sign is used).
 CoverOK(nowB) == nowB >= 0
 PeriodIdx(start, pd) == start \div pd          \* the k of a period; ids must be a function of k (C06.tile, ids)
 
 \* ------------------------------------------------------------------------------------------- C06.partition
+\* Arithmetic guard (TLC integers are 32 bit): the operators below may be applied only if every period starts within
+\* RangeS(TS) seconds of the base and list values are bounded by 7*10^8 (recorder); a legitimate MPD stays far inside
+\* (periods of at most 3600 s, windows of seconds).  Anything else is a failed clause, never an evaluation error.
+RangeS(TS) == 700000000 \div (IF TS > 0 THEN TS ELSE 1)
+InRange(B, TS, pd, starts) == /\ TS > 0 /\ pd <= RangeS(TS)
+                              /\ \A j \in 1..Len(starts) : starts[j] - B >= 0 /\ starts[j] - B <= RangeS(TS)
 \* presentation time (ticks, relative to B) of segment x of period view v: presentationTimeOffset and Period@start applied
 Pres(B, TS, v, x) == x[1] - v.pto + (v.start - B) * TS
 InPeriod(B, TS, pd, start, t) == (start - B) * TS <= t /\ t < (start - B + pd) * TS
@@ -92,5 +98,5 @@ ContOK(cont, pcs) ==
 \* ------------------------------------------------------------------------------------------- C06.pt
 \* Number mode: the MPD changes exactly when a new period appears: publishTime = availabilityStartTime + start of the
 \* last period (ptRelMS = publishTime - AST - B*1000 in ms)
-PtOK(B, lastStart, ptRelMS) == ptRelMS = (lastStart - B) * 1000
+PtOK(B, lastStart, ptRelMS) == lastStart - B >= 0 /\ lastStart - B <= 2000000 /\ ptRelMS = (lastStart - B) * 1000
 =============================================================================
